@@ -22,13 +22,18 @@ Fixpoint upd_nth (n : nat) (f : Z -> Z) (l : list Z) : list Z :=
   | x :: r => match n with O => f x :: r | S n' => x :: upd_nth n' f r end
   end.
 
+(* __CPUELT(cpu) = cpu / 64 and the bit position cpu % 64 of __CPUMASK, written the way they are compiled
+   (shift / mask; Proofs: widx_eq, bidx_eq show they are the quotient and the remainder) *)
+Definition widx (i : Z) : nat := Z.to_nat (Z.shiftr i 6).
+Definition bidx (i : Z) : Z := Z.land i 63.
+
 (* CPU_SET / CPU_CLR / CPU_ISSET for an index already known to be in range *)
 Definition set_bit (s : cpuset) (i : Z) : cpuset :=
-  upd_nth (Z.to_nat (i / 64)) (fun w => Z.lor w (Z.shiftl 1 (i mod 64))) s.
+  upd_nth (widx i) (fun w => Z.lor w (Z.shiftl 1 (bidx i))) s.
 Definition clr_bit (s : cpuset) (i : Z) : cpuset :=
-  upd_nth (Z.to_nat (i / 64)) (fun w => Z.ldiff w (Z.shiftl 1 (i mod 64))) s.   (* w & ~mask on uint64 *)
+  upd_nth (widx i) (fun w => Z.ldiff w (Z.shiftl 1 (bidx i))) s.   (* w & ~mask on uint64 *)
 Definition test_bit (s : cpuset) (i : Z) : bool :=
-  Z.testbit (nth (Z.to_nat (i / 64)) s 0) (i mod 64).
+  Z.testbit (nth (widx i) s 0) (bidx i).
 
 (* CpuSet::add / remove / contains : range check, then the macro *)
 Definition cs_add (s : cpuset) (i : Z) : cpuset := if in_cap i then set_bit s i else s.
